@@ -196,9 +196,9 @@ def nontrivial(M, scn):
 
 
 def codec_family(prop, tier, seed, planset, level="model_checking", san="plain", rule="", modules=(1, 2, 3), depth=None, exact=True,
-                 valcap=0, maxfail=6, invariants=("RoundTrip",), leafcap=0, dense=False, big=False):
+                 valcap=0, maxfail=6, invariants=("RoundTrip",), leafcap=0, dense=False, big=False, res=None, finish_it=True):
     t0 = time.time()
-    res = Result(prop)
+    res = res or Result(prop)
     known = lib.load_findings(prop)
     depth = depth or (2 if tier == "quick" else 3)
     if os.environ.get("VERIF_MODULES"):
@@ -215,6 +215,8 @@ def codec_family(prop, tier, seed, planset, level="model_checking", san="plain",
         run_sessions(res, M, mod, scns, "Trace_Codec", san=san, known=known, invariants=invariants,
                      constants=("Mod <- TheMod", "ByteExact = %s" % ("TRUE" if exact else "FALSE")))
         log("%s module %s: %d sessions, %d violations so far, %.0fs" % (prop, M.name, len(scns), len(res.violations), time.time() - t0))
+    if not finish_it:
+        return res
     return finish(res, tier, seed, level, t0, rule, ASSUME_CODEC,
                   exhaustive=False, extra={"exhaustive_note": "every (type, boundary value, plan) of the universe modules was enumerated by TLC and replayed"})
 
@@ -515,8 +517,164 @@ def check_C11(tier, seed):
                   ASSUME_COMPILER, exhaustive=True)
 
 
+# ---- compiler: effective constraints (C09) --------------------------------------------------------
+def parse_printed(line):
+    """'(1..3 | 8..10,...)' -> spec record {has, lb, ub, ext}"""
+    import re
+    from asn1gen import int_to_big
+    body = line.strip()
+    m = re.search(r"\((.*)\)\s*$", body)
+    if not m:
+        return {"has": False, "lb": {"k": "MIN"}, "ub": {"k": "MAX"}, "ext": False}
+    inner = m.group(1).strip()
+    if inner.startswith("SIZE(") and inner.endswith(")"):
+        inner = inner[5:-1]
+    ext = "..." in inner
+    inner = inner.split(",")[0].strip() if ext else inner
+    lo, hi = None, None
+
+    def bnd(t):
+        t = t.strip()
+        if t == "MIN":
+            return ("MIN", None)
+        if t == "MAX":
+            return ("MAX", None)
+        return ("V", int(t))
+    pieces = []
+    for piece in inner.split("|"):
+        piece = piece.strip()
+        if not piece:
+            continue
+        if ".." in piece:
+            a, b = piece.split("..")
+            pieces.append((bnd(a), bnd(b)))
+        else:
+            pieces.append((bnd(piece), bnd(piece)))
+    if not pieces:
+        return {"has": False, "lb": {"k": "MIN"}, "ub": {"k": "MAX"}, "ext": ext}
+
+    def key_lo(b):
+        return (-1, 0) if b[0] == "MIN" else (1, 0) if b[0] == "MAX" else (0, b[1])
+    lo = min((p[0] for p in pieces), key=key_lo)
+    hi = max((p[1] for p in pieces), key=key_lo)
+
+    def js(b):
+        return {"k": b[0]} if b[0] != "V" else {"k": "V", "v": int_to_big(b[1])}
+    has = not (lo[0] == "MIN" and hi[0] == "MAX" and not ext)
+    return {"has": has, "lb": js(lo), "ub": js(hi), "ext": ext}
+
+
+def check_C09(tier, seed):
+    import subprocess, tempfile, shutil, re
+    from concurrent.futures import ThreadPoolExecutor
+    from asn1gen import constraint
+    t0 = time.time()
+    res = Result("C09")
+    known = lib.load_findings("C09")
+    parts = 8 if tier == "thorough" else 1
+    depth = 2
+    scns = []
+
+    def gen(part):
+        consts = ["Depth = %d" % depth, "Part = %d" % part, "Parts = %d" % (parts if tier == "thorough" else (1 if depth == 1 else 6))]
+        return lib.generate("MC_Constraints", consts, ["Sound", "Export"], workers=2)
+    with ThreadPoolExecutor(4) as ex:
+        for _, sc, st in ex.map(gen, range(parts)):
+            scns += sc
+            res.states += st["distinct"]
+            res.transitions += st["states"]
+    for i, s in enumerate(scns):
+        s["id"] = i + 1
+    m = lib.ensure_mirror()
+    evs = []
+    work = tempfile.mkdtemp(prefix="c09-", dir=lib.SCRATCH)
+    try:
+        B = 150
+        for b0 in range(0, len(scns), B):
+            batch = scns[b0:b0 + B]
+            text = "C9 DEFINITIONS ::= BEGIN\n" + "".join("T%d ::= INTEGER%s\n" % (s["id"], constraint(s["expr"])) for s in batch) + "END\n"
+            p = os.path.join(work, "m%d.asn1" % b0)
+            open(p, "w").write(text)
+            r = subprocess.run([m["asn1c"], "-E", "-F", "-print-constraints", p], stdout=subprocess.PIPE, stderr=subprocess.PIPE, text=True, errors="replace", timeout=120)
+            per, oer = {}, {}
+            cur = None
+            for line in r.stdout.splitlines():
+                mm = re.match(r"^T(\d+) ::=", line)
+                if mm:
+                    cur = int(mm.group(1))
+                mm = re.match(r"^-- PER-visible constraints \(\S+\):(.*)$", line)
+                if mm and cur:
+                    per[cur] = parse_printed(mm.group(1))
+                mm = re.match(r"^-- OER-visible constraints \(\S+\):(.*)$", line)
+                if mm and cur:
+                    oer[cur] = parse_printed(mm.group(1))
+            if r.returncode != 0 or len(per) != len(batch):
+                # some expression of the batch is rejected: run them one by one
+                for s in batch:
+                    t1 = "C9 DEFINITIONS ::= BEGIN\nT%d ::= INTEGER%s\nEND\n" % (s["id"], constraint(s["expr"]))
+                    open(p, "w").write(t1)
+                    r1 = subprocess.run([m["asn1c"], "-E", "-F", "-print-constraints", p], stdout=subprocess.PIPE, stderr=subprocess.PIPE, text=True, errors="replace", timeout=60)
+                    pp = oo = None
+                    for line in r1.stdout.splitlines():
+                        mm = re.match(r"^-- PER-visible constraints \(\S+\):(.*)$", line)
+                        if mm:
+                            pp = parse_printed(mm.group(1))
+                        mm = re.match(r"^-- OER-visible constraints \(\S+\):(.*)$", line)
+                        if mm:
+                            oo = parse_printed(mm.group(1))
+                    dflt = {"has": False, "lb": {"k": "MIN"}, "ub": {"k": "MAX"}, "ext": False}
+                    evs.append({"id": s["id"], "a": "Print", "exit": r1.returncode if pp else (r1.returncode or 1), "per": pp or dflt, "oer": oo or dflt,
+                                "stderr": r1.stderr[-200:]})
+            else:
+                for s in batch:
+                    evs.append({"id": s["id"], "a": "Print", "exit": 0, "per": per[s["id"]], "oer": oer[s["id"]]})
+    finally:
+        shutil.rmtree(work, ignore_errors=True)
+    consts = ["Depth = %d" % depth, "Part = 0", "Parts = 1"]
+    mism, tot = lib.judge("MC_Constraints", None, scns, evs, constants=consts, shards=8)
+    mism = expand(mism)
+    res.states += tot["distinct"]
+    res.transitions += tot["states"]
+    res.sessions += len(scns)
+    res.events += len(evs)
+    byid = {s["id"]: s for s in scns}
+    evid = {e["id"]: e for e in evs}
+    for s in scns:
+        res.distinct.add(json.dumps(s["expr"], sort_keys=True))
+    res.samples.append({"expression": "INTEGER" + constraint(scns[len(scns) // 2]["expr"]), "spec": {k: scns[len(scns) // 2][k] for k in ("per", "oer")},
+                        "printed": evid[scns[len(scns) // 2]["id"]]})
+    for mm_ in mism:
+        s = byid[mm_["id"]]
+        sig = {"op": "print-constraints", "shape": shape_of(s["expr"]), "reason": mm_["reason"]}
+        f = None
+        for kf in known:
+            for alt in (kf["match"] if isinstance(kf["match"], list) else [kf["match"]]):
+                mt = dict(alt)
+                pred = mt.pop("pred", None)
+                if mt.get("op") == "print-constraints" and lib.finding_matches({"match": mt}, sig) and (not pred or F.MPREDS[pred](s, evid[mm_["id"]])):
+                    f = kf
+        if f:
+            res.known[f["id"]] = res.known.get(f["id"], 0) + 1
+        else:
+            res.violations.append((sig, {"property": "C09", "signature": sig, "expression": "INTEGER" + constraint(s["expr"]), "expr": s["expr"],
+                                         "spec": {"per": s["per"], "oer": s["oer"]}, "event": evid[mm_["id"]]}))
+    log("C09 print-constraints: %d expressions, %d violations, %.0fs" % (len(scns), len(res.violations), time.time() - t0))
+    # the layout the codecs actually use: reference UPER / OER octets for types built from constraint expression trees
+    os.environ.pop("VERIF_MODULES", None)
+    codec_family("C09", tier, seed, "enc", modules=(5,), res=res, finish_it=False)
+    return finish(res, tier, seed, "model_checking", t0,
+                  "(a) every constraint expression of depth <= 2 over the points {MIN,-2,0,3,5,MAX}: ranges and single values, union, intersection, EXCEPT, serial application, extension marker (with and without additions, inside unions / intersections / serial applications); non-empty ones only; asn1c -E -F -print-constraints is run on each and the printed PER-visible / OER-visible ranges are compared with Eff / OerEff of the specification; (b) module VC of spec/Universe.tla (unions incl. adjacent / overlapping / single values, intersections, EXCEPT, serial application, subtype chains through references, extension markers, 32/64-bit boundary values, SIZE constraints): every boundary value encoded by the generated UPER / OER codecs and compared with the reference octets; distinct = distinct expression trees + distinct (type, value)",
+                  ASSUME_COMPILER, exhaustive=True)
+
+
+def shape_of(c):
+    if c["op"] in ("none", "range"):
+        return c["op"]
+    return c["op"] + "(" + ",".join(shape_of(c[k]) for k in ("a", "b") if k in c and c[k]["op"] != "none") + ")"
+
+
 CHECKS = {"C01": check_C01, "C02": check_C02, "C03": check_C03, "C04": check_C04, "C05": check_C05, "C06": check_C06, "C07": check_C07, "C08": check_C08, "C14": check_C14,
-          "C11": check_C11, "C16": check_C16, "C17": check_C17}
+          "C09": check_C09, "C11": check_C11, "C16": check_C16, "C17": check_C17}
 
 
 def replay(prop, path):
